@@ -145,36 +145,38 @@ Curated == <<
   << <<K3, KS, KN>>, <<K1, K2, K3>>, <<K2, KM>> >>   \* three rows per object
 >>
 
+\* Layout universes, built as SEQUENCES with plain arithmetic (a constant
+\* definition that goes through a community-module operator such as SetToSeq
+\* is not pre-evaluated by TLC and would be recomputed at every use).
 KeyDom == <<K1, K2, K3, KS, KN, KM>>
-ObjUniverse == {<<KeyDom[i]>> : i \in 1..6} \cup {<<KeyDom[i], KeyDom[j]>> : i \in 1..6, j \in 1..6}
-PairLayouts == {<<a, b>> : a \in ObjUniverse, b \in ObjUniverse}
+Pairs(objs) == [i \in 1..(Len(objs) * Len(objs)) |-> <<objs[((i - 1) \div Len(objs)) + 1], objs[((i - 1) % Len(objs)) + 1]>>]
+Triples(objs) == [i \in 1..(Len(objs) * Len(objs) * Len(objs)) |->
+                    <<objs[((i - 1) \div (Len(objs) * Len(objs))) + 1], objs[(((i - 1) \div Len(objs)) % Len(objs)) + 1], objs[((i - 1) % Len(objs)) + 1]>>]
+\* all objects of one or two keys
+ObjUniverse == [i \in 1..6 |-> <<KeyDom[i]>>] \o [i \in 1..36 |-> <<KeyDom[((i - 1) \div 6) + 1], KeyDom[((i - 1) % 6) + 1]>>]
+\* quick: 8 objects
+QuickObjs == << <<K1>>, <<K2>>, <<K3>>, <<KN>>, <<KM>>, <<K1, K3>>, <<K2, KN>>, <<KS, KM>> >>
 \* three objects: singletons and a few pairs
-SmallObjs == {<<KeyDom[i]>> : i \in 1..6} \cup {<<K1, K3>>, <<K2, KN>>, <<K2, K3>>}
-TripleLayouts == {<<a, b, c>> : a \in SmallObjs, b \in SmallObjs, c \in SmallObjs}
+SmallObjs == [i \in 1..6 |-> <<KeyDom[i]>>] \o << <<K1, K3>>, <<K2, KN>>, <<K2, K3>> >>
 
-\* quick universes
-QuickObjs == {<<KeyDom[i]>> : i \in {1, 2, 3, 5, 6}} \cup {<<K1, K3>>, <<K2, KN>>, <<KS, KM>>}
-QuickLayouts == {<<a, b>> : a \in QuickObjs, b \in QuickObjs} \cup SeqRange(Curated)
-FewLayouts == {Curated[1], Curated[7], Curated[9]}
-
-LayoutSet ==
-  CASE LayoutSel = "curated" -> SeqRange(Curated)
-    [] LayoutSel = "quick"   -> QuickLayouts
-    [] LayoutSel = "few"     -> FewLayouts
-    [] LayoutSel = "pairs"   -> PairLayouts \cup SeqRange(Curated)
-    [] LayoutSel = "triples" -> TripleLayouts \cup SeqRange(Curated)
+LAYOUTS == TLCEval(
+  CASE LayoutSel = "curated" -> Curated
+    [] LayoutSel = "few"     -> <<Curated[1], Curated[9]>>
+    [] LayoutSel = "quick"   -> Pairs(QuickObjs) \o Curated
+    [] LayoutSel = "pairs"   -> Pairs(ObjUniverse) \o Curated
+    [] LayoutSel = "triples" -> Triples(SmallObjs) \o Curated)
 
 \* ================================================================ Lister
 \* lister.go sortObjects lessFunc (bytes.Equal on keys = equality here: every
 \* null-ish min/max is stored as null).
+LCmp(desc, p, q) == IF desc THEN CmpV(q, p, TRUE) ELSE CmpV(p, q, TRUE)
 ListerLess(desc, a, b) ==
   LET aF == IF desc THEN a.mx ELSE a.mn   aT == IF desc THEN a.mn ELSE a.mx
       bF == IF desc THEN b.mx ELSE b.mn   bT == IF desc THEN b.mn ELSE b.mx
-      cmp(p, q) == IF desc THEN CmpV(q, p, TRUE) ELSE CmpV(p, q, TRUE)
-  IN IF cmp(aF, bF) < 0 THEN TRUE
+  IN IF LCmp(desc, aF, bF) < 0 THEN TRUE
      ELSE IF aF # bF THEN FALSE
      ELSE IF aT = bT THEN FALSE
-     ELSE cmp(aT, bT) < 0
+     ELSE LCmp(desc, aT, bT) < 0
 
 \* snapshot.Select iterates a Go map and the sort is stable: every order without
 \* an inversion is possible.
@@ -287,16 +289,19 @@ WellFormedFrom(p, sc) ==
                /\ WellFormedFrom(Tail(p), Schema(p[1], sc)))
 WellFormed(p) == WellFormedFrom(p, {"k", "g", "u", "x"})
 
-AllOps == {"WG", "WK", "CK", "CU", "CZ", "PY", "PK", "RZ", "DK", "DX", "SU", "SR", "SG", "SX", "SXR",
-           "H1", "H2", "T1", "T2", "UQ", "YU", "AG", "AK", "XG", "XK", "VG", "LG", "UK", "A0", "X0"}
-CoreProgs == { <<>>, <<"WG">>, <<"WK">>, <<"CK", "H2">>, <<"PY", "T2">>, <<"H1">>, <<"H2">>, <<"T2">>, <<"SU">>, <<"SG">>,
+AllOps == <<"WG", "WK", "CK", "CU", "CZ", "PY", "PK", "RZ", "DK", "DX", "SU", "SR", "SG", "SX", "SXR",
+           "H1", "H2", "T1", "T2", "UQ", "YU", "AG", "AK", "XG", "XK", "VG", "LG", "UK", "A0", "X0">>
+CoreProgs == << <<>>, <<"WG">>, <<"WK">>, <<"CK", "H2">>, <<"PY", "T2">>, <<"H1">>, <<"H2">>, <<"T2">>, <<"SU">>, <<"SG">>,
                <<"AG">>, <<"AK">>, <<"XG">>, <<"VG">>, <<"LG">>, <<"A0">>, <<"WK", "AK">>, <<"UQ">>, <<"AG", "SG">>,
                <<"SR", "H2">>, <<"RZ", "T1">>, <<"DK", "H2">>,
-               <<"CU">>, <<"CU", "H2">>, <<"SXR">> }      \* the last three reach the known defects F1, F2
-Progs ==
+               <<"CU">>, <<"CU", "H2">>, <<"SXR">> >>      \* the last three reach the known defects F1, F2
+Len1Progs == << <<>> >> \o [i \in 1..Len(AllOps) |-> <<AllOps[i]>>]
+Len2Progs == Len1Progs \o [i \in 1..(Len(AllOps) * Len(AllOps)) |-> <<AllOps[((i - 1) \div Len(AllOps)) + 1], AllOps[((i - 1) % Len(AllOps)) + 1]>>]
+PROGS == TLCEval(
   CASE ProgSel = "core" -> CoreProgs
-    [] ProgSel = "len1" -> {p \in {<<>>} \cup {<<a>> : a \in AllOps} : WellFormed(p)}
-    [] ProgSel = "len2" -> {p \in {<<>>} \cup {<<a>> : a \in AllOps} \cup {<<a, b>> : a \in AllOps, b \in AllOps} : WellFormed(p)}
+    [] ProgSel = "len1" -> SelectSeq(Len1Progs, WellFormed)
+    [] ProgSel = "len2" -> SelectSeq(Len2Progs, WellFormed))
+Progs == {PROGS[i] : i \in 1..Len(PROGS)}
 
 \* ================================================================ planner
 NoKey == [f |-> "", desc |-> FALSE]
@@ -551,10 +556,14 @@ Mode(seq) == IF seq.ex THEN "exact" ELSE IF seq.by # NoCmp THEN "cls" ELSE "bag"
 \* Everything that depends only on the case is tabulated at constant level
 \* (TLC evaluates constant definitions once); the state holds the case and
 \* the Lister / Slicer / leg state only.
+\* layouts and programs are numbered so that the tables are sequences (TLC
+\* indexes a sequence in constant time; applying a function whose domain is a
+\* set of nested values is slow)
 DescSet == {d = "desc" : d \in Dirs}
-PlanTab == TLCEval([p \in Progs |-> TLCEval([d \in DescSet |-> PlanOf(p, d)])])
-RowsTab == TLCEval([l \in LayoutSet |-> TLCEval([d \in DescSet |-> ObjRows(l, d)])])
-MetaTab == TLCEval([l \in LayoutSet |-> TLCEval([d \in DescSet |-> Metas(l, d)])])
+DI(d) == IF d THEN 2 ELSE 1
+PlanTab == TLCEval([p \in 1..Len(PROGS) |-> TLCEval([d \in 1..2 |-> PlanOf(PROGS[p], d = 2)])])
+RowsTab == TLCEval([l \in 1..Len(LAYOUTS) |-> TLCEval([d \in 1..2 |-> ObjRows(LAYOUTS[l], d = 2)])])
+MetaTab == TLCEval([l \in 1..Len(LAYOUTS) |-> TLCEval([d \in 1..2 |-> Metas(LAYOUTS[l], d = 2)])])
 
 \* lister.go initObjectScan: stable sort of the snapshot's objects.  Objects with
 \* identical [min,max] tie (the snapshot is a Go map, so their relative order is
@@ -565,7 +574,8 @@ ListerSort(n, m, d) ==
   IN TLCEval([p \in 1..n |-> CHOOSE a \in 1..n : rank[a] = p])
 \* the Lister order by [layout][desc]; the range pruner of a pushed-down
 \* "k >= 2" then skips the objects whose max is below 2
-LorderTab == TLCEval([l \in LayoutSet |-> TLCEval([d \in DescSet |-> ListerSort(Len(l), MetaTab[l][d], d)])])
+LorderOf(lay, d) == ListerSort(Len(lay), Metas(lay, d), d)
+LorderTab == TLCEval([l \in 1..Len(LAYOUTS) |-> TLCEval([d \in 1..2 |-> LorderOf(LAYOUTS[l], d = 2)])])
 PruneOrder(lor, m, wk) == IF wk THEN SelectSeq(lor, LAMBDA o : CmpV(I(2), m[o].mx, TRUE) <= 0) ELSE lor
 
 \* ---------------------------------------------------------------- pure step functions
@@ -626,56 +636,58 @@ RowJson(r) == TLCEval([f \in {g \in Fields : r[g].t # "abs"} |-> r[f]])
 RowsJson(s) == TLCEval([i \in 1..Len(s) |-> RowJson(s[i])])
 
 VARIABLES
-  lay, desc, prog, nleg,   \* the case (constant along a behaviour)
-  sc,                      \* the scan state: Lister (lo), Slicer (stash, smin, smax), legs (parts, done)
-  served                   \* history: <<leg, objects pulled from the Lister during that Pull>>
+  vLay, vDesc, vProg, vLegs,      \* the case: layout number, direction, program number, legs (constant along a behaviour)
+  vScan,                      \* the scan state: Lister (sLo), Slicer (sStash, smin, smax), legs (sParts, sDone)
+  vServed                   \* history: <<leg, objects pulled from the Lister during that Pull>>
 
-vars == <<lay, desc, prog, nleg, sc, served>>
+vars == <<vLay, vDesc, vProg, vLegs, vScan, vServed>>
+cLay == LAYOUTS[vLay]
+cProg == PROGS[vProg]
 
-plan == PlanTab[prog][desc]
-rows == RowsTab[lay][desc]
-meta == MetaTab[lay][desc]
+cPlan == PlanTab[vProg][DI(vDesc)]
+cRows == RowsTab[vLay][DI(vDesc)]
+cMeta == MetaTab[vLay][DI(vDesc)]
 HasWK(pl) == \E i \in 1..Len(pl.filter) : pl.filter[i] = "WK"
-lorder == PruneOrder(LorderTab[lay][desc], meta, HasWK(plan))
-lo == sc.lo
-stash == sc.stash
-parts == sc.parts
-done == sc.done
-LegSet == 1..nleg
-Exhausted == ExhaustedS(sc)
-Terminal == TerminalS(sc)
+cLorder == PruneOrder(LorderTab[vLay][DI(vDesc)], cMeta, HasWK(cPlan))
+sLo == vScan.lo
+sStash == vScan.stash
+sParts == vScan.parts
+sDone == vScan.done
+LegSet == 1..vLegs
+Exhausted == ExhaustedS(vScan)
+Terminal == TerminalS(vScan)
 
 Init ==
-  /\ lay \in LayoutSet
-  /\ desc \in DescSet
-  /\ prog \in Progs
-  /\ nleg \in LegCounts
-  /\ sc = ScanState(PruneOrder(LorderTab[lay][desc], MetaTab[lay][desc], HasWK(PlanTab[prog][desc])), nleg)
-  /\ served = <<>>
+  /\ vLay \in 1..Len(LAYOUTS)
+  /\ vDesc \in DescSet
+  /\ vProg \in 1..Len(PROGS)
+  /\ vLegs \in LegCounts
+  /\ vScan = ScanState(PruneOrder(LorderTab[vLay][DI(vDesc)], MetaTab[vLay][DI(vDesc)], HasWK(PlanTab[vProg][DI(vDesc)])), vLegs)
+  /\ vServed = <<>>
 
 Pull(l) ==
-  /\ CanPull(sc, l)
-  /\ LET r == PullStep(plan, meta, rows, sc, l)
-     IN sc' = r.st /\ served' = Append(served, <<l, r.pulled>>)
-  /\ UNCHANGED <<lay, desc, prog, nleg>>
+  /\ CanPull(vScan, l)
+  /\ LET r == PullStep(cPlan, cMeta, cRows, vScan, l)
+     IN vScan' = r.st /\ vServed' = Append(vServed, <<l, r.pulled>>)
+  /\ UNCHANGED <<vLay, vDesc, vProg, vLegs>>
 
 Next == \E l \in LegSet : Pull(l)
 Spec == Init /\ [][Next]_vars
 
 \* ---------------------------------------------------------------- results
-SeqResult == SeqResultOf(plan, rows, meta, lorder, desc, prog)
-ParResult == ParResultOf(plan, rows, desc, parts)
-Taint == TaintOf(plan, rows, desc, parts)
-LegInput(ps) == ScanStream(rows, ps, desc, plan.filter, plan.slicer)
-LegOut(ps) == LegOutOf(plan, rows, desc, ps)
+SeqResult == SeqResultOf(cPlan, cRows, cMeta, cLorder, vDesc, cProg)
+ParResult == ParResultOf(cPlan, cRows, vDesc, sParts)
+Taint == TaintOf(cPlan, cRows, vDesc, sParts)
+LegInput(ps) == ScanStream(cRows, ps, vDesc, cPlan.filter, cPlan.slicer)
+LegOut(ps) == LegOutOf(cPlan, cRows, vDesc, ps)
 
 \* ---------------------------------------------------------------- properties
-AllObjs == {lorder[i] : i \in 1..Len(lorder)}
-Handed == UNION {UNION {SeqRange(parts[l][i]) : i \in 1..Len(parts[l])} : l \in LegSet}
+AllObjs == {cLorder[i] : i \in 1..Len(cLorder)}
+Handed == UNION {UNION {SeqRange(sParts[l][i]) : i \in 1..Len(sParts[l])} : l \in LegSet}
 \* every object is in exactly one place: still listed, stashed, or in exactly one partition of one leg
 HandedOnce ==
-  /\ Handed \cup SeqRange(stash) \cup SeqRange(lo) = AllObjs
-  /\ Len(lo) + Len(stash) + SumSeq(Concat(TLCEval([l \in LegSet |-> TLCEval([i \in 1..Len(parts[l]) |-> Len(parts[l][i])])]))) = Len(lorder)
+  /\ Handed \cup SeqRange(sStash) \cup SeqRange(sLo) = AllObjs
+  /\ Len(sLo) + Len(sStash) + SumSeq(Concat(TLCEval([l \in LegSet |-> TLCEval([i \in 1..Len(sParts[l]) |-> Len(sParts[l][i])])]))) = Len(cLorder)
 
 \* Slicer (checked once per layout and direction, at constant level): consecutive
 \* partitions have disjoint, increasing key spans in pool direction, and the
@@ -683,35 +695,35 @@ HandedOnce ==
 SpanOf(m, p) == [mn |-> CHOOSE v \in {m[o].mn : o \in SeqRange(p)} : \A w \in {m[o].mn : o \in SeqRange(p)} : CmpV(v, w, TRUE) <= 0,
                  mx |-> CHOOSE v \in {m[o].mx : o \in SeqRange(p)} : \A w \in {m[o].mx : o \in SeqRange(p)} : CmpV(v, w, TRUE) >= 0]
 SlicerProps(l, d) ==
-  LET m   == MetaTab[l][d]
-      rw  == RowsTab[l][d]
-      lor == LorderTab[l][d]
+  LET m   == MetaTab[l][DI(d)]
+      rw  == RowsTab[l][DI(d)]
+      lor == LorderTab[l][DI(d)]
       ps  == SlicerAll(m, lor, <<>>, NONE, NONE)
       sp  == TLCEval([i \in 1..Len(ps) |-> SpanOf(m, ps[i])])
   IN /\ \A i \in 1..Len(ps) - 1 :
           IF d THEN CmpV(sp[i].mn, sp[i+1].mx, TRUE) > 0 ELSE CmpV(sp[i].mx, sp[i+1].mn, TRUE) < 0
      /\ Concat(TLCEval([i \in 1..Len(ps) |-> PartRows(rw, ps[i], d, <<>>)]))
           = StableSort(Concat(TLCEval([i \in 1..Len(lor) |-> rw[lor[i]]])), PoolC(d))
-     /\ Len(Concat(ps)) = Len(l)
-ASSUME \A l \in LayoutSet : \A d \in DescSet : SlicerProps(l, d)
+     /\ Len(Concat(ps)) = Len(LAYOUTS[l])
+ASSUME \A l \in 1..Len(LAYOUTS) : \A d \in DescSet : SlicerProps(l, d)
 
-\* partial aggregation rows are combined exactly once: for a split count the
-\* final counts add up to the number of rows the legs scanned
+\* partial aggregation cRows are combined exactly once: for a split count the
+\* final counts add up to the number of cRows the legs scanned
 CountConserved ==
-  (Terminal /\ Exhausted /\ plan.tail # <<>> /\ plan.tail[1].part = "in" /\ AggKind(plan.tail[1].op) = "count") =>
-     LET fin == ApplyOp(plan.tail[1], IF plan.fan = "merge" THEN MergeStreams(TLCEval([l \in LegSet |-> LegOut(parts[l])]), plan.mc)
-                                      ELSE CombineStreams(TLCEval([l \in LegSet |-> LegOut(parts[l])])))
-     IN SumSeq(TLCEval([i \in 1..Len(fin.s) |-> fin.s[i]["a"].n])) = SumSeq(TLCEval([l \in LegSet |-> Len(LegInput(parts[l]).s)]))
+  (Terminal /\ Exhausted /\ cPlan.tail # <<>> /\ cPlan.tail[1].part = "in" /\ AggKind(cPlan.tail[1].op) = "count") =>
+     LET fin == ApplyOp(cPlan.tail[1], IF cPlan.fan = "merge" THEN MergeStreams(TLCEval([l \in LegSet |-> LegOut(sParts[l])]), cPlan.mc)
+                                      ELSE CombineStreams(TLCEval([l \in LegSet |-> LegOut(sParts[l])])))
+     IN SumSeq(TLCEval([i \in 1..Len(fin.s) |-> fin.s[i]["a"].n])) = SumSeq(TLCEval([l \in LegSet |-> Len(LegInput(sParts[l]).s)]))
 
 CaseJson(seq, par) ==
-  [lay |-> lay, objs |-> TLCEval([i \in 1..Len(lay) |-> RowsJson(rows[i])]),
-   desc |-> desc, prog |-> prog, n |-> nleg, plan |-> PlanText(plan), lorder |-> lorder,
-   served |-> TLCEval([i \in 1..Len(served) |-> [leg |-> served[i][1], objs |-> served[i][2]]]),
+  [lay |-> cLay, objs |-> TLCEval([i \in 1..Len(cLay) |-> RowsJson(cRows[i])]),
+   desc |-> vDesc, prog |-> cProg, n |-> vLegs, plan |-> PlanText(cPlan), lorder |-> cLorder,
+   served |-> TLCEval([i \in 1..Len(vServed) |-> [leg |-> vServed[i][1], objs |-> vServed[i][2]]]),
    seq |-> [rows |-> RowsJson(seq.s), mode |-> Mode(seq), det |-> seq.det, byf |-> seq.by.f],
    parrows |-> RowsJson(par.s), taint |-> Taint]
 
-Hash == Len(served) + SumSeq(TLCEval([i \in 1..Len(served) |-> served[i][1] * i])) + Len(prog) * 7 + Len(lay) * 3 + nleg + (IF desc THEN 1 ELSE 0)
-           + SumSeq(TLCEval([i \in 1..Len(lorder) |-> lorder[i] * i])) + SumSeq(TLCEval([i \in 1..Len(lay) |-> Len(lay[i]) * i * 5]))
+Hash == Len(vServed) + SumSeq(TLCEval([i \in 1..Len(vServed) |-> vServed[i][1] * i])) + Len(cProg) * 7 + Len(cLay) * 3 + vLegs + (IF vDesc THEN 1 ELSE 0)
+           + SumSeq(TLCEval([i \in 1..Len(cLorder) |-> cLorder[i] * i])) + SumSeq(TLCEval([i \in 1..Len(cLay) |-> Len(cLay[i]) * i * 5]))
 
 \* Checked in every terminal state: the case is printed first (Emit) so that a
 \* counterexample is visible, then the property.
@@ -722,7 +734,7 @@ ResultOK ==
     IN /\ emit => PrintT(ToJson(CaseJson(seq, par)))
        /\ (seq.det /\ Taint = {}) => (par.det /\ Equiv(par, seq))
 
-\* non-vacuity of the plan space (the dynamic features -- a leg with several
+\* non-vacuity of the cPlan space (the dynamic features -- a leg with several
 \* partitions, a partition with several objects, a leg stopped by its head --
 \* are counted by the harness on the exported cases)
 ASSUME \E p \in Progs : \E d \in BOOLEAN : LET pl == PlanOf(p, d) IN pl.slicer /\ pl.fan = "merge"
